@@ -14,6 +14,18 @@ look-behind, empty matches, anchors) with the sites computed here with `re` and 
 model as a table, checked by the proved file-level checker `spec-C18-file`; (C) call forms
 (options omitted = documented defaults, positional, str/list/tuple of files); (D) an output file
 that already exists (stale content, or one of the inputs).
+
+Second pass (GAPS-C18.md, "Second pass"): (E) scripted generator states — `np.random.permutation` is
+replaced for some cases by a generator that returns the identity always / for the first k calls /
+with probability p / never: the branch of the retry loop that gives up after 100 tries is reached,
+and the number of calls is judged by the proved spec `spec-C18-calls` (`callsOK`) on sites computed
+here; (G) the generated files are also described declaratively (records = name, description, lines;
+newline convention) and rendered by the driver op `c18-layout`: the text must be the file written here
+and the real reader must return the proteins the description denotes (`C18_fasta_input_parse`), several
+files must read as the concatenation of the single files (`C18_several_files`); (F) further call forms
+(`fasta=`/`out_file=` by keyword, `pathlib.Path`, a generator of paths, flags as int / numpy bool,
+compiled regexes with flags), duplicate records, calls with hundreds of records or sequences of
+thousands of residues.
 """
 from __future__ import annotations
 
@@ -21,6 +33,8 @@ import itertools
 import json
 import logging
 import os
+import pathlib
+import random
 import re
 import shutil
 import tempfile
@@ -36,7 +50,10 @@ RULE = (
     "compiled regexes, 11 enzymes that are no residue classes (multi-letter, look-behind, empty matches, anchors; "
     "sites from `re` in the harness), 6 prefixes, shuffle/reverse, concatenate on/off, random global numpy RNG state, "
     "options passed by keyword / positionally / omitted at their documented defaults, files as str/list/tuple, "
-    "output file absent / stale / one of the inputs); "
+    "output file absent / stale / one of the inputs; fasta/out_file by keyword, pathlib.Path, generator of paths, "
+    "int / numpy-bool flags, compiled regexes with re.I / re.X flags; duplicate records; a few calls with 150-400 "
+    "records or sequences of 400-2500 residues; ~4% of the cases with a scripted generator state: identity always / "
+    "for the first k in {1,5,99,100,101,150} calls / with probability 0.9 / never); "
     "distinct = distinct (per-protein site lists, reverse, concat, enzyme); non-trivial = at least one peptide "
     "with an interior of >= 2 residues (something is actually permuted); every tier adds an exhaustive sweep "
     "over all sequences on the alphabet {K,P,A,B} up to a length bound x {[KR], [KR](?!P)} x {shuffle, reverse}"
@@ -56,6 +73,8 @@ ENZYMES = [
 # enzymes that are NOT a residue class (optionally with look-ahead): only the enzyme-independent
 # clauses are promised; the sites are computed in the harness with `re` (not with the package)
 GENERAL_ENZYMES = ["KR", "[KR][^P]", "K|RR", "(?<=K)", "[KR]+", "K*", ".{5}", "^M", "$", "(?<=[KR])(?!P)", "(?i)k"]
+# compiled regexes whose meaning depends on their flags (pattern, flags): sites computed here with the same flags
+FLAGGED_ENZYMES = [("k", re.I), ("[kr]", re.I), ("K  # lysine\n", re.X), ("[k r] (?!p)", re.I | re.X)]
 # the documented signature: make_decoys(fasta, out_file, decoy_prefix="decoy_", enzyme="[KR]", reverse=False,
 # concatenate=True); textwrap default width 70 — cross-checked against the model's constants (`c18-defaults`)
 DEFAULTS = dict(prefix="decoy_", regex="[KR]", reverse=False, concat=True, width=70)
@@ -72,8 +91,11 @@ QUICK = [True]   # set by main
 # ----------------------------------------------------------------------------
 # generators
 # ----------------------------------------------------------------------------
-def gen_seq(rng, cut, block):
-    n = rng.choice(LENS)
+SMALL_LENS = [0, 1, 3, 4, 5, 6, 7, 8, 10, 12, 16, 20, 27, 35]
+
+
+def gen_seq(rng, cut, block, lens=LENS):
+    n = rng.choice(lens)
     style = rng.choice(["aa", "aa", "aa", "dense", "sparse", "nocut", "allcut", "lookahead", "distinct"])
     if style == "aa":
         s = [rng.choice(AA) for _ in range(n)]
@@ -118,10 +140,13 @@ def gen_name(rng):
 
 
 def layout(rng, name, seq, eol):
-    """text of one record (without the final line end) and whether it is multi-line"""
+    """text of one record (without the final line end), whether it is multi-line, and the record as the
+    declarative description `[name, [description] | None, [line …]]` (driver op `c18-layout`)"""
     head = ">" + name
+    desc = None
     if rng.random() < 0.5:
-        head += " " + "".join(rng.choice(DESCCH) for _ in range(rng.randint(0, 15)))
+        desc = "".join(rng.choice(DESCCH) for _ in range(rng.randint(0, 15)))
+        head += " " + desc
     lines = []
     mode = rng.choice(["one", "w60", "w70", "w80", "rand", "tiny"])
     if mode == "one" or not seq:
@@ -135,7 +160,12 @@ def layout(rng, name, seq, eol):
             i += w
             if rng.random() < 0.04:
                 lines.append("")  # blank line inside a record
-    return eol.join([head] + lines), len([l for l in lines if l]) > 1
+    return eol.join([head] + lines), len([l for l in lines if l]) > 1, [name, None if desc is None else [desc], lines]
+
+
+EOLNAME = {"\n": "lf", "\r\n": "crlf", "\r": "cr"}
+SCRIPTS = [["id-all"], ["id-all"], ["never-id"], ["never-id"], ["id-first", 1], ["id-first", 5], ["id-first", 99],
+           ["id-first", 100], ["id-first", 101], ["id-first", 150], ["id-prob", 0.9]]
 
 
 def gen_stale(rng):
@@ -150,46 +180,79 @@ def gen_stale(rng):
     return ""
 
 
-def gen_case(rng, exotic_ok=True):
+BIG_LENS = [400, 700, 1401, 2500]
+
+
+def gen_case(rng, exotic_ok=True, script=None, size=None):
     regex, cut, block = rng.choice(ENZYMES)
     enz_kind = "class"
+    reflags = 0
     if rng.random() < 0.18:
         regex, cut, block, enz_kind = rng.choice(GENERAL_ENZYMES), "KR", "", "general"
-    call = rng.choice(["kw", "kw", "pos", "omit", "omit"])
-    nfiles = rng.choice([1, 1, 1, 2, 2, 3])
-    files, truth = [], []
+        if rng.random() < 0.2:
+            regex, reflags = rng.choice(FLAGGED_ENZYMES)
+    call = rng.choice(["kw", "kw", "pos", "omit", "omit", "allkw"])
+    small = script is not None   # scripted generators may be asked 100 times per length: keep the lengths few
+    nfiles = rng.choice([1, 1, 1, 2, 2, 3]) if not small else rng.choice([1, 1, 2])
+    if size:   # calls with hundreds of records / sequences of thousands of residues
+        nfiles = rng.choice([1, 2])
+    files, truth, lay = [], [], []
     multiline = False
     eols = []
+    dup = None
     for _ in range(nfiles):
         eol = rng.choice(["\n", "\n", "\n", "\r\n", "\r"])
         eols.append(eol)
-        recs = []
-        for _ in range(rng.choice([1, 1, 2, 2, 3, 4, 6, 8])):
-            name, seq = gen_name(rng), gen_seq(rng, cut, block)
-            txt, ml = layout(rng, name, seq, eol)
+        recs, srecs = [], []
+        nrec = rng.choice([1, 1, 2, 2, 3, 4, 6, 8]) if not small else rng.choice([1, 2, 3])
+        lens = SMALL_LENS if small else LENS
+        if size == "many-records":
+            nrec, lens = rng.randint(150, 400) // nfiles, SMALL_LENS + [50, 71]
+        elif size == "long-sequences":
+            nrec, lens = rng.choice([1, 2]), BIG_LENS
+        for _ in range(nrec):
+            name, seq = gen_name(rng), gen_seq(rng, cut, block, lens)
+            if truth and rng.random() < 0.06:
+                # duplicate records: the same name again (with the same or another sequence), or the same
+                # sequence under another name — every record must come out, in order
+                dup = rng.choice(["name+seq", "name", "seq"])
+                oname, oseq = rng.choice(truth)
+                name, seq = (oname if dup != "seq" else name), (oseq if dup != "name" else seq)
+            txt, ml, srec = layout(rng, name, seq, eol)
             multiline |= ml
             recs.append(txt)
+            srecs.append(srec)
             truth.append([name, seq])
         text = eol.join(recs)
         if rng.random() < 0.7:
             text += eol
+            srecs[-1][2].append("")      # a final line end = an empty last line of the last record
             if rng.random() < 0.1:
                 text += eol
+                srecs[-1][2].append("")
         files.append(text)
+        lay.append([EOLNAME[eol], srecs])
     case = dict(
-        files=files, truth=truth, regex=regex, cut=cut, block=block, compiled=rng.random() < 0.2,
+        files=files, truth=truth, regex=regex, cut=cut, block=block,
+        compiled=(rng.random() < 0.2) or reflags != 0,
         prefix=rng.choice(PREFIXES), reverse=rng.random() < 0.4, concat=rng.random() < 0.6,
         npseed=rng.randrange(2 ** 32), klass="plain", eol="".join(sorted(set(repr(e)[1:-1] for e in eols))),
         multiline=multiline, enz_kind=enz_kind, call=call,
-        argform=rng.choice(["str", "list", "list", "tuple"]) if nfiles == 1 else rng.choice(["list", "tuple"]),
+        argform=(rng.choice(["str", "list", "list", "tuple", "path", "pathlist", "gen"]) if nfiles == 1
+                 else rng.choice(["list", "tuple", "pathlist", "gen"])),
         stale=gen_stale(rng) if rng.random() < 0.3 else None, out_is_input=rng.random() < 0.06,
+        layout=lay, reflags=reflags, out_path=rng.random() < 0.15,
+        flagform=rng.choice(["bool", "bool", "bool", "int", "npbool"]), script=script, dup=dup,
+        size=size or "ordinary",
     )
+    if script is not None and rng.random() < 0.85:
+        case["reverse"] = False          # (reversal with a scripted generator: it must not be asked at all)
     if call == "omit":
         # options left out of the call take their documented defaults (each with probability 0.6; 13% all four)
         if rng.random() < 0.6:
             case["prefix"] = DEFAULTS["prefix"]
         if rng.random() < 0.6:
-            case.update(regex=DEFAULTS["regex"], cut="KR", block="", compiled=False, enz_kind="class")
+            case.update(regex=DEFAULTS["regex"], cut="KR", block="", compiled=False, enz_kind="class", reflags=0)
         if rng.random() < 0.6:
             case["reverse"] = DEFAULTS["reverse"]
         if rng.random() < 0.6:
@@ -199,7 +262,7 @@ def gen_case(rng, exotic_ok=True):
         # edge inputs, the targets are whatever the reader makes of it (">" + end of text raises IndexError)
         case["klass"] = "exotic:empty-name"
         case["truth"] = None
-    elif exotic_ok and rng.random() < 0.12:
+    elif exotic_ok and not size and rng.random() < 0.12:
         make_exotic(rng, case)
     return case
 
@@ -232,20 +295,45 @@ def make_exotic(rng, case):
         f[0] = "> " + f[0][1:]
     case["klass"] = "exotic:" + kind
     case["truth"] = None
+    case["layout"] = None     # the text was edited: the declarative description no longer applies
 
 
 # ----------------------------------------------------------------------------
 # implementation side
 # ----------------------------------------------------------------------------
 class DrawRecorder:
-    """records what `np.random.permutation` returns while `_shuffle_proteins` runs (observation only)"""
+    """records what `np.random.permutation` returns while `_shuffle_proteins` runs.  Without a script this is
+    observation only.  With a script the generator *state* is chosen by the harness (the theorems quantify over
+    every generator): `["id-all"]` every draw is the identity, `["id-first", k]` the first k draws of the call are,
+    `["id-prob", p]` each draw is with probability p, `["never-id"]` no draw (of >= 2 elements) is; all other
+    draws come from numpy's global generator."""
+
+    def __init__(self, script=None, seed=0):
+        self.script = script
+        self.prng = random.Random(seed)
+
+    def identity_at(self, k):
+        sc = self.script
+        if sc is None or sc[0] == "never-id":
+            return False
+        if sc[0] == "id-all":
+            return True
+        if sc[0] == "id-first":
+            return k < sc[1]
+        return self.prng.random() < sc[1]
 
     def __enter__(self):
         self.orig = np.random.permutation
         self.draws = []
 
         def wrapped(x):
-            out = self.orig(x)
+            if self.identity_at(len(self.draws)):
+                out = np.array(x, copy=True)
+            else:
+                out = self.orig(x)
+                while self.script is not None and self.script[0] == "never-id" and len(out) >= 2 and \
+                        np.array_equal(out, np.asarray(x)):
+                    out = self.orig(x)
             self.draws.append([int(v) for v in np.asarray(out).tolist()])
             return out
 
@@ -279,14 +367,28 @@ def run_impl(case, tmp):
         res["in_entries"] = [list(F._parse_protein(p)) for p in F._parse_fasta_files(paths)]
     except Exception as e:  # noqa: BLE001
         res["in_error"] = type(e).__name__
-    enzyme = re.compile(case["regex"]) if case["compiled"] else case["regex"]
+    enzyme = re.compile(case["regex"], case.get("reflags", 0)) if case["compiled"] else case["regex"]
     form = case.get("argform")
     if form is None:   # cases recorded before the call-form dimension existed
         arg = paths[0] if (len(paths) == 1 and case["npseed"] % 2) else paths
+    elif form == "str" and len(paths) == 1:
+        arg = paths[0]
+    elif form == "path" and len(paths) == 1:
+        arg = pathlib.Path(paths[0])
+    elif form == "tuple":
+        arg = tuple(paths)
+    elif form == "pathlist":
+        arg = [pathlib.Path(p) for p in paths]
+    elif form == "gen":
+        arg = (p for p in list(paths))
     else:
-        arg = paths[0] if (form == "str" and len(paths) == 1) else (tuple(paths) if form == "tuple" else paths)
+        arg = paths
+    out_arg = pathlib.Path(out) if case.get("out_path") else out
     call = case.get("call", "kw")
-    kwargs = dict(decoy_prefix=case["prefix"], enzyme=enzyme, reverse=case["reverse"], concatenate=case["concat"])
+    ff = case.get("flagform", "bool")
+    flag = (lambda b: int(b)) if ff == "int" else ((lambda b: np.bool_(b)) if ff == "npbool" else (lambda b: b))
+    kwargs = dict(decoy_prefix=case["prefix"], enzyme=enzyme, reverse=flag(case["reverse"]),
+                  concatenate=flag(case["concat"]))
     if call == "omit":
         if case["prefix"] == DEFAULTS["prefix"]:
             del kwargs["decoy_prefix"]
@@ -297,18 +399,27 @@ def run_impl(case, tmp):
         if case["concat"] == DEFAULTS["concat"]:
             del kwargs["concatenate"]
     res["omitted"] = 4 - len(kwargs)
+    # several files read together = the single files read one after the other (`C18_several_files`; real vs real)
+    if len(paths) > 1 and all(t.startswith(">") for t in case["files"]) and "in_entries" in res:
+        try:
+            res["each_entries"] = [list(F._parse_protein(p)) for q in paths for p in F._parse_fasta_files(q)]
+        except Exception as e:  # noqa: BLE001
+            res["each_error"] = type(e).__name__
     np.random.seed(case["npseed"])
     try:
-        with DrawRecorder() as rec:
+        with DrawRecorder(case.get("script"), case["npseed"]) as rec:
             if call == "pos":
-                ret = mokapot.make_decoys(arg, out, case["prefix"], enzyme, case["reverse"], case["concat"])
+                ret = mokapot.make_decoys(arg, out_arg, case["prefix"], enzyme, flag(case["reverse"]),
+                                          flag(case["concat"]))
+            elif call == "allkw":
+                ret = mokapot.make_decoys(fasta=arg, out_file=out_arg, **kwargs)
             else:
-                ret = mokapot.make_decoys(arg, out, **kwargs)
+                ret = mokapot.make_decoys(arg, out_arg, **kwargs)
     except Exception as e:  # noqa: BLE001
         res["error"] = type(e).__name__
         return res
     res["draws"] = rec.draws
-    res["ret_ok"] = str(ret) == out
+    res["ret_ok"] = ret is out_arg or (type(ret) is type(out_arg) and ret == out_arg)
     with open(out, newline="", encoding="utf-8") as fh:
         res["out_text"] = fh.read()
     try:
@@ -330,14 +441,14 @@ def sites_of(seq, cut, block):
     return [0] + ends + [len(seq)]
 
 
-def ends_re(regex, seq):
+def ends_re(regex, seq, flags=0):
     """`[m.end() for m in finditer]` computed here (CPython `re` is trusted, the package is not called)"""
-    return [m.end() for m in re.compile(regex).finditer(seq)]
+    return [m.end() for m in re.compile(regex, flags).finditer(seq)]
 
 
 def case_sites(c, seq):
     if c.get("enz_kind", "class") == "general":
-        return [0] + ends_re(c["regex"], seq) + [len(seq)]
+        return [0] + ends_re(c["regex"], seq, c.get("reflags", 0)) + [len(seq)]
     return sites_of(seq, c["cut"], c["block"])
 
 
@@ -345,7 +456,7 @@ def enz_wire(c, targets):
     """the enzyme as the model takes it: a residue class, or (any other regex) the table seq -> match ends"""
     if c.get("enz_kind", "class") == "general":
         seqs = sorted({s for _, s in targets})
-        return [Atom("table"), [[s, ends_re(c["regex"], s)] for s in seqs]]
+        return [Atom("table"), [[s, ends_re(c["regex"], s, c.get("reflags", 0))] for s in seqs]]
     return [Atom("class"), c["cut"], c["block"]]
 
 
@@ -365,10 +476,20 @@ def eval_cases(chk, cases, light=False):
         shutil.rmtree(tmp, ignore_errors=True)
     # targets: ground truth by construction, or (exotic) the model's reading of the files
     lines = [req("c18-parse", c["files"]) for c in cases]
+    lay_idx = [k for k, c in enumerate(cases) if c.get("layout")]
+    lines += [req("c18-layout", [[Atom(e), recs] for e, recs in cases[k]["layout"]]) for k in lay_idx]
     resp = common.driver_batch(lines)
     model_targets = []
-    for r in resp:
+    for r in resp[:len(cases)]:
         model_targets.append(None if r.strip() == "reject-index" else [[a_str(n), a_str(s)] for n, s in dec1(r)])
+    # the declarative description of the input: file texts and the proteins it denotes (`C18_fasta_input_parse`)
+    layout_out = {}
+    for k, r in zip(lay_idx, resp[len(cases):]):
+        if r.strip().startswith("["):
+            texts, ents, ok = dec(r)
+            layout_out[k] = ([a_str(t) for t in texts], [[a_str(n), a_str(q)] for n, q in ents], a_bool(ok))
+        else:
+            layout_out[k] = r.strip()
     lines, tags = [], []
     for k, (c, im) in enumerate(zip(cases, impl)):
         tg = c["truth"] if c["truth"] is not None else model_targets[k]
@@ -398,11 +519,17 @@ def eval_cases(chk, cases, light=False):
         if im.get("omitted") == 4:
             lines.append(req("c18-run-default", im["draws"], old, c["files"]))
             tags.append((k, "rundefault"))
+        if not light and in_scope(tg):
+            # the proved spec of the number of generator calls, on the sites computed here
+            sc = c.get("script") or [None]
+            lines.append(req("spec-C18-calls", c["reverse"], [case_sites(c, s) for _, s in tg], len(im["draws"]),
+                             sc[0] == "id-all", sc[0] == "never-id"))
+            tags.append((k, "calls"))
     resp = common.driver_batch(lines)
-    model_out, spec_out, run_out, specfile_out, rundef_out = {}, {}, {}, {}, {}
+    model_out, spec_out, run_out, specfile_out, rundef_out, calls_out = {}, {}, {}, {}, {}, {}
     for (k, tag), r in zip(tags, resp):
         {"model": model_out, "spec": spec_out, "run": run_out, "specfile": specfile_out,
-         "rundefault": rundef_out}[tag][k] = r.strip()
+         "rundefault": rundef_out, "calls": calls_out}[tag][k] = r.strip()
 
     for k, (c, im) in enumerate(zip(cases, impl)):
         mt = model_targets[k]
@@ -424,6 +551,42 @@ def eval_cases(chk, cases, light=False):
         if mt is None:
             chk.case(None, None)
             chk.corr_break("c18-parse", dict(info, impl=im["in_entries"], model="reject-index"))
+            continue
+        # ---- the input as declaratively described (records, lines, newline convention) ----------
+        lo = layout_out.get(k)
+        lay_ok = False
+        if lo is not None:
+            if isinstance(lo, str):
+                chk.case(None, None)
+                chk.corr_break("c18-layout", dict(info, model=lo))
+                continue
+            ltexts, lents, lhyp = lo
+            if ltexts != c["files"]:
+                # the description does not describe the files written here: a defect of this harness
+                chk.case(None, None)
+                chk.corr_break("c18-layout:text", dict(info, harness=c["files"], model=ltexts))
+                continue
+            if lhyp:
+                lay_ok = True
+                if c["truth"] is not None and lents != c["truth"]:
+                    chk.case(None, None)
+                    chk.corr_break("c18-layout:truth", dict(info, harness=c["truth"], model=lents))
+                    continue
+                if im["in_entries"] != lents:
+                    chk.case(None, None)
+                    chk.spec_violation("input-parse", dict(info, impl=im["in_entries"], expected=lents,
+                                                           clause="the reader does not return the proteins of the "
+                                                           "records of the input files (C18_fasta_input_parse)"))
+                    continue
+                if mt != lents:
+                    chk.case(None, None)
+                    chk.corr_break("c18-parse", dict(info, impl=im["in_entries"], model=mt, layout=lents))
+                    continue
+        if "each_entries" in im and im["each_entries"] != im["in_entries"]:
+            chk.case(None, None)
+            chk.spec_violation("several-files", dict(info, impl=im["in_entries"], expected=im["each_entries"],
+                                                     clause="files read together differ from the files read one "
+                                                     "after the other (C18_several_files)"))
             continue
         if not in_scope(tg):
             chk.count("out-of-scope(blank or '>' inside a sequence)")
@@ -448,11 +611,22 @@ def eval_cases(chk, cases, light=False):
             chk.count("enzyme_kind", c.get("enz_kind", "class"))
             chk.count("call", c.get("call", "kw") + (f"(omitted={im.get('omitted')})" if c.get("call") == "omit" else ""))
             chk.count("fasta_arg", c.get("argform") or "legacy")
+            chk.count("out_file_arg", "Path" if c.get("out_path") else "str")
+            chk.count("flag_form", c.get("flagform", "bool"))
+            chk.count("regex_flags", str(re.RegexFlag(c.get("reflags", 0))) if c.get("reflags") else "none")
+            chk.count("generator", "numpy" if not c.get("script") else "scripted:" + "-".join(map(str, c["script"])))
+            chk.count("input described declaratively (c18-layout) and reader judged by it", lay_ok)
+            chk.count("several files compared with the files read singly", "each_entries" in im)
+            chk.count("duplicate_records", c.get("dup") or "none")
+            chk.count("size", c.get("size", "ordinary"))
             chk.count("out_file", "is-input" if c.get("out_is_input") else
                       ("absent" if c.get("stale") is None else
                        ("stale-longer" if len(c["stale"]) > len(im.get("out_text", "")) else "stale-shorter")))
             nd, nl = len(im.get("draws", [])), len({len(d) for d in im.get("draws", [])})
             chk.count("generator_calls", nd if nd <= 3 else ("4-9" if nd < 10 else ("10-99" if nd < 100 else ">=100")))
+            chk.count("retry loop gave up (100 identity draws for one length)",
+                      any(all(d == list(range(len(d))) for d in im.get("draws", [])[i:i + 100])
+                          for i in range(0, max(nd - 99, 0))))
             chk.count("retry(identity drawn first)", nd > nl)
             for _, s in tg:
                 n = len(s)
@@ -513,6 +687,20 @@ def eval_cases(chk, cases, light=False):
         if not hyphen and rtext != im["out_text"]:
             chk.corr_break("c18-run", dict(info, impl=im["out_text"], model=rtext, draws=im["draws"][:20]))
             continue
+        if k in calls_out:
+            co = calls_out[k]
+            if not co.startswith("[") or dec(co)[0] != "ok":
+                # the clauses of C18 hold, the number of generator calls is not what the mechanism (one
+                # permutation per interior length, <= 100 tries) allows
+                chk.corr_break("spec-C18-calls", dict(info, impl=len(im["draws"]), model=co,
+                                                      sites=[case_sites(c, s) for _, s in tg][:10]))
+                continue
+            if c.get("script") and c["script"][0] == "id-all" and not c["reverse"]:
+                # `C18_generator_gives_up`: the decoys are the targets
+                want = (tg if c["concat"] else []) + [[c["prefix"] + n, q] for n, q in tg]
+                if im["out_entries"] != want:
+                    chk.corr_break("c18-gives-up", dict(info, impl=im["out_entries"], model=want))
+                    continue
         if k in rundef_out:
             chk.count("all-defaults call compared with makeDecoysDefault")
             rd = rundef_out[k]
@@ -587,7 +775,8 @@ def corpus_cases():
 def search(chk):
     rng = chk.rng
     for _ in range(10):
-        eval_cases(chk, [gen_case(rng) for _ in range(300)])
+        eval_cases(chk, [gen_case(rng) for _ in range(300)] +
+                   [gen_case(rng, script=rng.choice(SCRIPTS)) for _ in range(20)])
         if chk.spec_violations:
             return
     exhaustive(chk, 7)
@@ -595,7 +784,8 @@ def search(chk):
 
 def rebuild(case, truth):
     text = "\n".join(f">{n}\n{s}" if s else f">{n}" for n, s in truth)
-    return dict(case, files=[text], truth=[list(t) for t in truth], klass="shrunk", eol="\\n", multiline=False)
+    return dict(case, files=[text], truth=[list(t) for t in truth], klass="shrunk", eol="\\n", multiline=False,
+                layout=None)
 
 
 def minimise(chk):
@@ -657,6 +847,11 @@ def main(chk, args):
         chk.corr_break("c18-defaults", dict(model=[a_str(dpre), a_str(dcut), a_int(dw)], harness=DEFAULTS))
     cases = corpus_cases()
     cases += [gen_case(rng) for _ in range(2500 if quick else 25000)]
+    # scripted generator states (the retry loop gives up / is entered k times / is never entered)
+    cases += [gen_case(rng, script=rng.choice(SCRIPTS)) for _ in range(100 if quick else 1000)]
+    # a few calls that are large in one direction
+    cases += [gen_case(rng, exotic_ok=False, size=sz) for _ in range(2 if quick else 10)
+              for sz in ("many-records", "long-sequences")]
     for i in range(0, len(cases), 500):
         eval_cases(chk, cases[i:i + 500])
     exhaustive(chk, 7 if quick else 9)
@@ -670,6 +865,12 @@ def main(chk, args):
         "files are written and read as UTF-8 text; text-mode newline translation is part of the model (univNL)",
         "`np.random.permutation` is the only source of randomness of the call: its results are handed to the stateful "
         "model in call order, which must consume exactly as many as were made (perms dict, retry loop)",
+        "for ~4% of the cases the generator state is chosen by the harness: `np.random.permutation` is replaced by a "
+        "function that returns the identity always / for the first k calls / with probability 0.9 / never and "
+        "otherwise draws from numpy's global generator (such states have probability <= 2^-100 under numpy's own "
+        "generator; the theorems quantify over every generator)",
+        "the declarative description of the generated input files (records, lines, newline convention) is rendered "
+        "by the driver (`c18-layout`) and must equal the files written by the harness byte for byte",
         "for enzymes that are no residue class the match ends are computed in the harness with CPython `re` "
         "(`[m.end() for m in finditer]`) and checked by the driver to be non-decreasing and inside the sequence "
         "(hypothesis EndsOK of the theorems)",
